@@ -9,6 +9,18 @@ CG_TEXTS = [
     ('{[#A][#B][#A]}', '{#A=[$@l][#P][#Q][$@l],#B=[$@l][#R]1[#S][#T]1[$@l]}'),
     ('{[#A]([#B])[#B]}', '{#A=[>@l][#P]([#Q])[>@l][>@l],#B=[<@l][#R][#S]}'),
     ('{[#A]1[#B][#C]1}', '{#A=[$@l][#P][$@l],#B=[$@l][#Q][#R][$@l],#C=[$@l][#S][$@l]}'),
+    # one atom pair with two different descriptor pairs that are both compatible: the first listed one is to be used
+    ('{[#A][#B]}', '{#A=[#P][$@l]=[>@l],#B=[$@l][<@l]=[#Q]}'),
+    ('{[#A][#B][#A]}', '{#A=[#P][>@l][$@l],#B=[<@l][$@l][#Q][$@l][>@l]}'),
+    # shared nodes at a coarse level
+    ('{[#A][#B]}', '{#A=[#P][#Q][!@l],#B=[!@l][#Q][#R]}'),
+    ('{[#A][#B][#C]}', '{#A=[#P][!@l],#B=[!@l][#P][#Q][!@l],#C=[!@l][#Q][#R]}'),
+]
+AA_TEXTS = [
+    ('{[#A][#B]}', '{#A=CC[$@l]=[>@l],#B=[$@l][<@l]=CC}'),
+    ('{[#A][#B]}', '{#A=OC[!@l]C,#B=[!@l]CN}'),
+    ('{[#A][#B][#C]}', '{#A=CC[!@l],#B=[!@l]CCC[$@l][>@l],#C=[$@l][<@l]CO}'),
+    ('{[#A][#B]}', '{#A=N#C[!@l],#B=[!@l]CC(F)(F)F}'),      # no hydrogens at all
 ]
 
 
@@ -35,13 +47,14 @@ class C12(core.Prop):
     FUNCTIONS = ['sort_nodes_by_attr', 'set_atom_names_atomistic', 'merge_graphs', 'from_string', 'from_graph', 'from_fragment_dicts',
                  'read_fragments', 'read_fragment_smiles', 'read_fragment_cgsmiles', '_parse_dialect_string', 'resolve',
                  'resolve_disconnected_molecule', 'annotate_fragments', 'edges_from_bonding_descrpt']
-    STUBS = ['iteration over any set/frozenset in the rewritten code whose elements are not all int is a solver-chosen permutation '
-             '(the only channel through which PYTHONHASHSEED can reach these modules); occurrences are counted in the evidence',
+    STUBS = ['iteration over any set/frozenset in the rewritten code whose elements are not all int follows a solver-chosen order mode '
+             '(insertion / reversed / rotated), chosen independently for the first and the second resolver run of the history (= two '
+             'interpreter processes with different hash seeds); occurrences are counted in the evidence',
              're matcher (symx)', 'compatible(): summarised', 'pysmiles/networkx native (assumed order-deterministic)']
     ASSUMPTIONS = ['"same input" histories are run inside one path: from_string twice, from_graph, from_fragment_dicts twice with the *same* '
                    'fragment dict objects, and every permutation of the definitions in the fragment block (<= 3 definitions)',
                    'separate processes / hash seeds are represented only by the set-iteration model above']
-    OUTSIDE = ['literally separate interpreter processes; byte-identical dumps across processes', 'shared atoms (C10) in the contiguity clause']
+    OUTSIDE = ['separate interpreter processes are run only when a counterexample is replayed (6 hash seeds)', 'shared atoms (C10) in the contiguity clause']
     BOUNDS = {
         'quick': 'C01 quick cases (first rendering) + %d coarse strings with symbolic labels; history of 6 resolver runs per path' % len(CG_TEXTS),
         'thorough': 'C01 thorough cases <= 7 heavy atoms (renderings 0 and 1) + coarse strings with label length 1-2',
@@ -53,23 +66,36 @@ class C12(core.Prop):
     TECHNIQUE = 'symbolic execution of call histories over shared fragment libraries; equality-of-runs and snapshot oracle; z3'
     MAX_PATHS = 3000
 
+    _mode = {}
+    _run_index = [0]
+    _set_iters = [0]
+
     def setup_shadow(self, SH):
         install_summaries(SH)
         self._set_iters = [0]
 
+        self._mode = {}
+        self._run_index = [0]
+
         def hook(items):
             if all(isinstance(i, int) and not isinstance(i, bool) for i in items):
-                return sorted(items) if False else items
+                return items
             self._set_iters[0] += 1
-            if len(items) > 4:
-                raise symx.Unsupported("set of %d non-int elements iterated" % len(items))
-            # solver-chosen permutation
-            out = []
-            pool = list(items)
-            while pool:
-                i = int(symx.sym_int('setperm%d_%d' % (self._set_iters[0], len(pool)), 0, len(pool) - 1)) if len(pool) > 1 else 0
-                out.append(pool.pop(i))
-            return out
+            if len(items) <= 1:
+                return items
+            # Model of hash-seed dependent iteration: within one interpreter process the order of a set is a fixed
+            # function of its contents; another process may see another order.  Each resolver run of the history
+            # stands for one process: run 0 and run 1 get independent solver-chosen modes (insertion order /
+            # reversed / rotated by one), the remaining runs share run 0's mode.
+            key = 0 if self._run_index[0] != 1 else 1
+            if key not in self._mode:
+                self._mode[key] = int(symx.sym_int('set_order_mode_run%d' % key, 0, 2))
+            m = self._mode[key]
+            if m == 1:
+                return list(reversed(items))
+            if m == 2:
+                return items[1:] + items[:1]
+            return items
         symx.RT.set_order_hook = hook
 
     def extra_counts(self):
@@ -90,13 +116,21 @@ class C12(core.Prop):
         for i in range(len(CG_TEXTS)):
             for ll in ((1,) if tier == 'quick' else (1, 2)):
                 out.append({'mode': 'cg', 'idx': i, 'lablen': ll})
+        for i in range(len(AA_TEXTS)):
+            for ll in ((1,) if tier == 'quick' else (0, 1, 2)):
+                out.append({'mode': 'aatext', 'idx': i, 'lablen': ll})
+        # shared atoms (no contiguity clause): keys must still be 0..n-1 sorted by membership
+        from .c10 import PROP as C10P
+        sc = [s for s in C10P.shapes(tier) if 'c' not in s['smiles']]      # (shared aromatic atoms: known finding of C10)
+        for s in sc[::(12 if tier == 'quick' else 20)]:
+            out.append({'mode': 'mol', 'case': s, 'shared': True})
         return out
 
     def build(self, shape):
         if shape['mode'] == 'mol':
             r = pl.render_case(shape['case'])
             return {'base': r.base_text, 'frag': r.frag_text, 'perms': r.frag_perms}
-        base, frag = CG_TEXTS[shape['idx']]
+        base, frag = (CG_TEXTS if shape['mode'] == 'cg' else AA_TEXTS)[shape['idx']]
         lab = SymStr([sym_alnum('l%d' % j) for j in range(shape['lablen'])])
         parts = frag.split('@l')
         ftext = cat(*[x for i, p in enumerate(parts) for x in ((p, lab) if i < len(parts) - 1 else (p,))])
@@ -122,7 +156,7 @@ class C12(core.Prop):
         return {'base': base, 'frag': ftext, 'perms': perms}
 
     def execute(self, M, shape, inp):
-        aa = shape['mode'] == 'mol'
+        aa = shape['mode'] in ('mol', 'aatext')
         R = M.resolve.MoleculeResolver
 
         def obs_of(meta, mol):
@@ -131,8 +165,12 @@ class C12(core.Prop):
         def history():
             text = cat(inp['base'], '.', inp['frag'])
             runs = []
+            self._mode.clear()
+            self._run_index[0] = 0
             runs.append(obs_of(*R.from_string(text, last_all_atom=aa).resolve()))
+            self._run_index[0] = 1
             runs.append(obs_of(*R.from_string(text, last_all_atom=aa).resolve()))
+            self._run_index[0] = 2
             mg = M.read_cgsmiles.read_cgsmiles(inp['base'])
             runs.append(obs_of(*R.from_graph(inp['frag'], mg, last_all_atom=aa).resolve()))
             dicts = R.read_fragment_strings([inp['frag']], last_all_atom=aa)
@@ -167,8 +205,52 @@ class C12(core.Prop):
             cl.append(('same_result_' + nm, deep_eq(first, r)))
         cl.append(('fragment_library_unmodified', deep_eq(o['snap0'], o['snap1'])))
         cl.append(('default_arguments_unmodified', all(d == {} for grp in o['defaults'] for d in grp)))
-        cl += numbering_clauses(first, all_atom=(shape['mode'] == 'mol'))
+        has_shared = bool(shape.get('shared')) or any('!' in str(x) for x in [inp.get('frag')]) and '!' in ''.join(
+            i if isinstance(i, str) else '?' for i in symx.SymStr.lift(inp['frag'])._chs)
+        cl += numbering_clauses(first, all_atom=(shape['mode'] in ('mol', 'aatext')), shared=has_shared)
         return cl
+
+    def skip_validation(self, shape, inp):
+        # a path on which the set-order model was exercised describes several interpreter processes at once;
+        # the single real process of the witness run realises only one of the orders
+        return bool(self._mode)
+
+    def replay_extra(self, shape, cinp, clause=None):
+        """concrete replay only: the same input resolved in separate interpreter processes under different hash seeds"""
+        if not (clause or '').startswith('same_result'):
+            return []
+        import subprocess
+        import sys as _sys
+        aa = shape['mode'] in ('mol', 'aatext')
+        text = cinp['base'] + '.' + cinp['frag']
+        prog = ("import json,sys\nsys.path.insert(0, %r)\nimport os\nos.environ.setdefault('PBR_VERSION','0.0.0')\n"
+                "from cgsmiles.resolve import MoleculeResolver as R\n"
+                "meta, mol = R.from_string(%r, last_all_atom=%r).resolve()\n"
+                "print(json.dumps([sorted((n, sorted((k, repr(v)) for k, v in d.items() if k != 'graph')) for n, d in mol.nodes(data=True)),"
+                " sorted((min(a,b), max(a,b), repr(sorted(d.items()))) for a, b, d in mol.edges(data=True))]))\n") % (
+                    __import__('vf.loader', fromlist=['x']).REPO, text, aa)
+        dumps = set()
+        for seed in range(6):
+            env = dict(__import__('os').environ, PYTHONHASHSEED=str(seed), PBR_VERSION='0.0.0')
+            p = subprocess.run([_sys.executable, '-c', prog], stdout=subprocess.PIPE, stderr=subprocess.DEVNULL, text=True, env=env, timeout=120)
+            dumps.add(p.stdout.strip() if p.returncode == 0 else 'exit %d' % p.returncode)
+        return [('identical_dump_across_processes_with_hash_seeds_0_to_5', len(dumps) == 1)]
+
+    def classify(self, shape, cinp, cobs, clauses):
+        # known finding: with shared atoms the atom names are not unique / not element+index within a coarse node
+        # (a shared atom is named once per coarse node it belongs to, the last name wins).
+        # Signature: only the atom-name clause fails and every coarse node whose names are off contains an atom
+        # that belongs to more than one coarse node.
+        if clauses != ['atomnames_element_plus_running_index'] or cobs[0] != 'ok':
+            return None
+        run = cobs[1]['runs'][0]
+        mol, meta = run['mol'], run['meta']
+        for k, d in meta['nodes'].items():
+            mem = sorted(d.get('_members', []))
+            off = any(mol['nodes'][m].get('atomname') != '%s%d' % (mol['nodes'][m].get('element'), i) for i, m in enumerate(mem))
+            if off and not any(len(set(mol['nodes'][m].get('fragid', []))) > 1 for m in mem):
+                return None
+        return 'C12-shared-atom-names'
 
     def sample(self, shape, cinp):
         return [cinp['base'], cinp['frag']]
